@@ -338,9 +338,72 @@ def rule_subguard(facts):
     return r
 
 
+def rule_loopbound(facts):
+    """`for _ in 0..n` where n is an SQL integer argument runs up to 2^63 times: the statement never returns (repeat('', n),
+    substring(s, 0) before the repair). Such a loop needs an upper bound established before it (an ordering comparison of the
+    argument - or of a value computed from it - with something other than the constants 0/1), or a data-dependent exit inside the
+    loop (e.g. `if chars.next().is_none() { break }`)."""
+    from .c04 import _arg_roots
+    r = RuleResult("C20-LOOPBOUND", "range loops in string functions whose bound derives from an SQL integer argument have an upper-bound comparison before them "
+                   "or a data-dependent exit inside", floor=2)
+    for rec in facts.all_fns(["glaredb_core"], contains="::functions::scalar::builtin::string::"):
+        if "::functions::scalar::builtin::string::" not in rec["id"] or "::tests::" in rec["id"]:
+            continue
+        if "ops::Range" not in str(rec["bbs"]):
+            continue
+        fn = Fn(rec)
+        int_params = {l for l in range(1, fn.argc + 1) if fn.locals[l].replace("&", "").strip() in SIGNED + UNSIGNED}
+        if not int_params:
+            continue
+        for c in fn.calls():
+            if not (c.name.endswith("::next") and "ops::Range" in " ".join([c.name] + (c.gargs or []) + [c.callee.get("self", "") or ""])):
+                continue
+            # the Range value: receiver ← into_iter(Range{start,end})
+            o = fn.origin(c.args[0], at=c.bb)
+            rng = None
+            if o[0] == "call" and o[1].name.endswith("into_iter") and o[1].args:
+                ro = fn.origin(o[1].args[0], at=o[1].bb)
+                if ro[0] == "rv" and ro[1][0] == "agg":
+                    rng = ro[1]
+            if rng is None:
+                for b, i, pl, rv, ln in fn.assigns():
+                    if rv[0] == "agg" and rv[1][0] == "adt" and rv[1][1].endswith("ops::Range"):
+                        rng = rv
+            if rng is None or len(rng[2]) < 2:
+                continue
+            roots = {x for x, _o in _arg_roots(fn, rng[2][1], c.bb)} & int_params
+            if not roots:
+                continue
+            r.functions.add(fn.id)
+            r.call_sites += 1
+            # (a) upper bound before the loop
+            bounded = False
+            for b, i, pl, rv, ln in fn.assigns():
+                if rv[0] == "bin" and rv[1] in ("Lt", "Le", "Gt", "Ge") and fn.dominates(b, c.bb) and b != c.bb:
+                    for x, y in ((rv[2], rv[3]), (rv[3], rv[2])):
+                        if {q for q, _o in _arg_roots(fn, x, b)} & roots and not (y[0] == "k" and y[1].get("v") in (0, 1)):
+                            bounded = True
+            # (b) data-dependent exit
+            loop = {x for x in fn.reachable_from(c.bb) if c.bb in fn.reachable_from(x)}
+            natural = c.target
+            exits = 0
+            for u in loop:
+                for v in fn.succ[u]:
+                    if v in loop or u == natural:
+                        continue
+                    if any(e in fn.reachable_from(v) for e in fn.exits):
+                        exits += 1
+            ok = bounded or exits > 0
+            r.inst({"fn": fn.id, "line": c.line, "bound_param": sorted(fn.local_name(x) for x in roots), "upper_bound_before": bounded, "data_dependent_exits": exits}, ok)
+            if not ok:
+                r.violate(fn.id, "unbounded-range-loop", f"the range loop at line {c.line} runs `{', '.join(sorted(fn.local_name(x) for x in roots))}` times with no upper bound and no "
+                          "data-dependent exit: an extreme argument makes the statement run (or allocate) without end", rec["file"], c.line)
+    return r
+
+
 def run(ctx):
     facts = ctx["facts"]
-    return [rule_idx(facts), rule_like(facts), rule_intarg(facts), rule_subguard(facts)]
+    return [rule_idx(facts), rule_like(facts), rule_intarg(facts), rule_subguard(facts), rule_loopbound(facts)]
 
 
 CLAIM = {
